@@ -57,6 +57,9 @@ func main() {
 		}
 	case "replay":
 		os.Exit(replayMain(os.Args[2:]))
+	case "nativebatch":
+		// development aid: run a JSON array of replay requests natively (vcheck nativebatch <sub> <file> [repo])
+		os.Exit(nativeBatchMain(os.Args[2:]))
 	default:
 		fmt.Fprintln(os.Stderr, "unknown command")
 		os.Exit(3)
@@ -344,6 +347,9 @@ func checkMain(args []string) int {
 		}
 		idle = append(idle, r.w)
 		pr := r.res
+		if *verbose && pr.WallS > 5 {
+			fmt.Printf("  slow path %s %v: wall %.1fs solver %.1fs queries %d instrs %d\n", pr.Harness, pr.Decisions, pr.WallS, pr.SolverS, pr.Queries, pr.Instrs)
+		}
 		switch pr.Status {
 		case "ok":
 			a.OK++
